@@ -41,13 +41,24 @@ def _rand_profile(rng, ts):
             break
     p = rng.uniform(-20, 0, size=n)
     perm = rng.permutation(n) if rng.rand() < 0.3 else np.arange(n)
-    return fading.TdlChannelProfile(p[perm], (d * ts)[perm], "random")
+    try:
+        return fading.TdlChannelProfile(p[perm], (d * ts)[perm], "random")
+    except ValueError as ex:
+        if "math domain error" in str(ex) and np.ptp(d) == 0:
+            raise ProfileDomainError(f"TdlChannelProfile({p[perm].tolist()}, {(d * ts)[perm].tolist()}) raised ValueError: {ex}")
+        raise
+
+
+class ProfileDomainError(Exception):
+    pass
 
 
 def _build(sc):
-    """sc: scenario dict -> (channel, generator handed in, Ts)"""
+    """sc: scenario dict -> (channel, generator handed in, Ts, raw profile, rng).  Deterministic: calling it again gives
+    an identical, independent object (the global numpy RNG, used by Rayleigh and by similar Jakes generators, is seeded)."""
     from pyphysim.channels import fading, fading_generators, singleuser, multiuser
     rng = np.random.RandomState(sc["seed"])
+    np.random.seed(sc["seed"] % (2 ** 31))
     ts = [3.25e-8, 1e-6, 5e-5, 2.0 ** -18][rng.randint(0, 4)]
     prof = _rand_profile(rng, ts)
     nr, nt = sc["ant"]
@@ -56,7 +67,6 @@ def _build(sc):
         gen = fading_generators.JakesSampleGenerator(Fd=rng.uniform(5, 300), Ts=ts, L=int(rng.randint(4, 16)), shape=shape,
                                                      RS=np.random.RandomState(sc["seed"] + 1))
     else:
-        np.random.seed(sc["seed"] % (2 ** 31))
         gen = fading_generators.RayleighSampleGenerator(shape=shape)
     kind = sc["kind"]
     if kind == "tdl":
@@ -194,6 +204,10 @@ def run_scenario(sc):
     """-> (calls_ok, violation or None, finding or None)"""
     try:
         ch, gen, ts, raw, rng = _build(sc)
+        chA = _build(sc)[0]          # identical twins: linearity is checked from the same object state
+        chB = _build(sc)[0]
+    except ProfileDomainError as ex:
+        return 0, None, {"id": "ProfileRmsSqrtDomain", "what": str(ex)}
     except Exception as ex:
         return 0, f"construction raised {type(ex).__name__}: {ex}", None
     d = _check_profile(raw, ch.channel_profile, ts)
@@ -209,29 +223,42 @@ def run_scenario(sc):
     switched = False
     pl = None
     okc = 0
+    # Jakes: ONE twin of the generator, taken before the first call and advanced by what the statement says
+    # (n per time-domain call, fft per block), so the position is checked across the whole history
+    jtwin = copy.deepcopy(gen) if (not mu and sc["gen"] == "jakes") else None
     for i, o in enumerate(sc["ops"]):
         k = o["k"]
         try:
             if k == "Dir":
                 switched = bool(o["n"])
-                ch.switched_direction = switched
+                for c_ in (ch, chA, chB):
+                    c_.switched_direction = switched
             elif k == "PL":
                 if o["n"] == 0:
-                    if mu:
-                        try:
-                            ch.set_pathloss(None)
-                        except TypeError:
-                            return okc, None, {"id": "MuSetPathlossNoneRaises", "what": "MuChannel.set_pathloss(None) raised TypeError"}
-                    else:
-                        ch.set_pathloss(None)
+                    for c_ in (ch, chA, chB):
+                        if mu:
+                            try:
+                                c_.set_pathloss(None)
+                            except TypeError:
+                                return okc, None, {"id": "MuSetPathlossNoneRaises", "what": "MuChannel.set_pathloss(None) raised TypeError"}
+                        else:
+                            c_.set_pathloss(None)
                     pl = None
                 else:
                     pl = rng.uniform(0.01, 1.0, size=(kr, kt))
-                    ch.set_pathloss(pl if mu else float(pl[0, 0]))
+                    for c_ in (ch, chA, chB):
+                        c_.set_pathloss(pl.copy() if mu else float(pl[0, 0]))
             elif k == "Gen":
-                ch.generate_impulse_response(o["n"])
+                for c_ in (ch, chA, chB):
+                    c_.generate_impulse_response(o["n"])
                 if ch.get_last_impulse_response().num_samples != o["n"]:
                     return okc, f"step {i}: generate_impulse_response({o['n']}) reports another number of samples", None
+                if jtwin is not None:
+                    jtwin.generate_more_samples(o["n"])
+                    s = jtwin.get_samples()
+                    a = amps.reshape((-1,) + (1,) * (s.ndim - 1))
+                    if not np.allclose(ch.get_last_impulse_response().tap_values_sparse, a * s, rtol=0, atol=TOL):
+                        return okc, f"step {i}: generate_impulse_response does not continue at the generator position", None
             else:
                 inu, ina = (kr, nr) if switched else (kt, nt)
                 n = o["n"] if k == "T" else None
@@ -249,8 +276,7 @@ def run_scenario(sc):
                 cc = complex(rng.randn(), rng.randn())
                 if not mu and mimo and ina == 1 and i % 2:
                     x1, x2 = x1[0], x2[0]
-                snap = [copy.deepcopy(ch) for _ in range(2)]
-                gtwin = copy.deepcopy(gen)
+                gtwin = jtwin if jtwin is not None else (copy.deepcopy(gen) if not mu else None)
                 sd = (sc["seed"] * 31 + i) % (2 ** 31)
 
                 def call(c_, x_):
@@ -310,8 +336,8 @@ def run_scenario(sc):
                         return okc, (f"step {i} {o}: reported taps are not sqrt(path loss) sqrt(tap power) x the generator's "
                                      f"samples at the positions of this transmission"), None
                 # 3. linearity from the same object state
-                y1 = call(snap[0], x1)
-                y2 = call(snap[1], x2)
+                y1 = call(chA, x1)
+                y2 = call(chB, x2)
                 lin = [a + cc * b for a, b in zip(y1, y2)] if mu else y1 + cc * y2
                 if not _cmp(y, lin, mu):
                     return okc, f"step {i} {o}: response to x1 + c x2 differs from response(x1) + c response(x2)", None
@@ -339,12 +365,14 @@ def run(ctx, jobs):
     scs = scenarios_from(jobs, ctx.seed, count)
     res = pool_map(run_scenario, scs, chunksize=max(1, len(scs) // 64))
     n = 0
+    seen = set()
     for sc, (okc, viol, find) in zip(scs, res):
         ctx.ok(n=okc)
         ctx.trace_done()
         n += okc
         case = {"kind": "real", "scenario": sc}
-        if find:
+        if find and (find["id"], find["what"]) not in seen:
+            seen.add((find["id"], find["what"]))
             ctx.finding(find["id"], f"(real generators) {find['what']}", case)
         if viol:
             ctx.violation(f"(rel, {sc['gen']} generator, {sc['kind']} ant {sc['ant']} users {sc['users']}) {viol}", case)
